@@ -8,6 +8,7 @@ import (
 	"sort"
 	"strings"
 	"sync/atomic"
+	"time"
 
 	rocksdb "github.com/facebookincubator/dns/dnsrocks/cgo-rocksdb"
 	"github.com/facebookincubator/dns/dnsrocks/dnsdata/rdb"
@@ -150,12 +151,21 @@ func applyReader(path string, diff []byte) (res applyResult) {
 }
 
 // applyFile applies a diff the way `dnsrocks-applyrdb -i file` does (package
-// level rdb.ApplyDiff; the serial is derived from the file, none of the
-// preprocessed lines depends on it).
+// level rdb.ApplyDiff). That entry point takes the serial from the diff file's
+// modification time, so the file is given the mtime that makes it the serial
+// the stores were compiled with.
 func applyFile(path string, diff []byte) (res applyResult) {
+	return applyFileSerial(path, diff, dnsfix.Serial)
+}
+
+func applyFileSerial(path string, diff []byte, serial uint32) (res applyResult) {
 	f := path + ".diff"
 	if err := os.WriteFile(f, diff, 0o644); err != nil {
 		vlib.Infra("write diff: %v", err)
+	}
+	mt := time.Unix(int64(serial), 0)
+	if err := os.Chtimes(f, mt, mt); err != nil {
+		vlib.Infra("chtimes diff: %v", err)
 	}
 	defer os.Remove(f)
 	defer func() {
